@@ -60,14 +60,14 @@ CHECKS = {
     "C12": {
         "category": "fault_enumeration",
         "technique": "Kani on the real operations with a ghost descriptor/mapping table in the stub kernel: frame-condition contract over the table, every syscall symbolically failing or succeeding",
-        "text": "Bounded, partial: for 12 fd-creating operations (UnixStream::connect/try_connect, UnixListener::bind/accept/try_accept, TcpListener::bind/accept/try_accept, TcpStream::connect/try_connect incl. the in-progress second stage, OpenOptions::open over all option combinations, File::open, Directory::open, EpollDriver::create, rusl setup_io_uring) one symbolic execution lets each system call of the operation fail with any errno or succeed, i.e. every failure index k at once; the contract is the frame condition on the ghost descriptor (and mapping) table: Err => nothing opened stays open, Ok(v) => exactly v's descriptors, released by drop(v), no double or foreign close.",
-        "note": "Not covered (listed in evidence): File::copy/metadata, openpty, getpwuid_r (constant UnixStr paths: Kani cannot evaluate const fat pointers), Command::spawn (see C13), thread spawn. EINTR retry loops bounded to 7 syscalls per operation. One known finding recorded (setup_io_uring leaks on mmap failure).",
+        "text": "Bounded, partial: for 14 fd-creating operations (UnixStream::connect/try_connect, UnixListener::bind/accept/try_accept, TcpListener::bind/accept/try_accept, TcpStream::connect/try_connect incl. the in-progress second stage, OpenOptions::open over all option combinations, File::open, Directory::open, EpollDriver::create, rusl setup_io_uring, File::copy, and Command::spawn as seen from the caller: stdio pipes and both ends of the CLOEXEC sync pipe) one symbolic execution lets each system call of the operation fail with any errno or succeed, i.e. every failure index k at once; the contract is the frame condition on the ghost descriptor (and mapping) table: Err => nothing opened stays open, Ok(v) => exactly v's descriptors, released by drop(v), no double or foreign close.",
+        "note": "Not covered (listed in evidence): openpty, getpwuid_r (constant UnixStr paths: Kani cannot evaluate const fat pointers; File::copy is covered with stat_fd replaced through kani::stub for the same reason), thread spawn. EINTR retry loops bounded to 7 system calls per operation, spawn to 13. The setup_io_uring leak was first recorded as a known finding, then repaired (ad58ccd); no open finding.",
         "design_ref": "§4.C12",
     },
     "C07": {
         "category": "model_checking",
         "technique": "Verus contracts on the extracted resolve (both cfg variants, over a ghost word memory: any argc / envc) and from_auxv (unbounded) + bounded Kani harnesses with function-level contracts (byte-string definition of environment lookup, last-pair-wins aux values) on the real start/env code over symbolic memory images",
-        "text": "Partial: Verus proves tiny_start::start::resolve for a process-entry stack image of any shape (arg_c = word at sp, arg_v = sp+8, env_p = sp+8*(argc+2), environment scan ends at the first NULL, aux vector taken from right behind it, all reads inside the image) and AuxValues::from_auxv for aux vectors of any length (last pair with a key wins, large/unknown keys ignored, no read past AT_NULL). Bounded: on the compiled crates, for every well-formed initial stack image of four concrete shapes with symbolic contents, tiny_start::start::resolve returns pointers to exactly the kernel's argv/envp words and per aux key the value of the last pair with that key (unknown/large keys ignored, nothing read past AT_NULL); env::var / var_unix return the value of the first entry whose name equals the key exactly, Missing otherwise, NotUnicode iff the value is not UTF-8, for every environment of <= 2 entries x <= 4 bytes over the full byte alphabet and every key up to 3-4 bytes; args_os yields exactly argv[0..argc]. Out-of-bounds reads fail Kani's pointer checks. This is a bounded stand-in, not a proof.",
+        "text": "Partial: Verus proves env::var_unix for an environment block of any number and length of entries (value of the first entry whose name equals the key exactly, Missing iff none, all reads inside the block), tiny_start::start::resolve for a process-entry stack image of any shape (arg_c = word at sp, arg_v = sp+8, env_p = sp+8*(argc+2), environment scan ends at the first NULL, aux vector taken from right behind it, all reads inside the image) and AuxValues::from_auxv for aux vectors of any length (last pair with a key wins, large/unknown keys ignored, no read past AT_NULL). Bounded: on the compiled crates, for every well-formed initial stack image of four concrete shapes with symbolic contents, tiny_start::start::resolve returns pointers to exactly the kernel's argv/envp words and per aux key the value of the last pair with that key (unknown/large keys ignored, nothing read past AT_NULL); env::var / var_unix return the value of the first entry whose name equals the key exactly, Missing otherwise, NotUnicode iff the value is not UTF-8, for every environment of <= 2 entries x <= 4 bytes over the full byte alphabet and every key up to 3-4 bytes; args_os yields exactly argv[0..argc]. Out-of-bounds reads fail Kani's pointer checks. This is a bounded stand-in, not a proof.",
         "note": "NOT decided: _start assembly, static-PIE self-relocation (relocate_symbols), vDSO lookup/agreement, 'in every link mode', debug/release differences. Keys assumed non-empty without '='. Hook: tiny-std feature verif-hooks (env::verif_set_env).",
         "design_ref": "§4.C07",
     },
